@@ -180,13 +180,13 @@ def _zip_star(ex, x):
     Python: [] if X is empty, else k tuples of length len(X)."""
     it = ex.iter_of(x)
     i0 = fresh('zi', z3.IntSort())
-    ex.solver.push(); ex.nofork += 1
+    ex.push(); ex.nofork += 1
     try:
-        ex.solver.add(i0 >= 0, i0 < it.ln)
+        ex.solver.add(i0 >= 0, i0 < it.ln); ex.ground.add(i0 >= 0, i0 < it.ln)
         try: probe = ex.val(it.get(i0))
         except E.NeedFork: raise Unsupported('zip(*...) element needs a fork')
     finally:
-        ex.nofork -= 1; ex.solver.pop()
+        ex.nofork -= 1; ex.pop()
     if isinstance(probe.ty, TRec): k = len(probe.ty.fields); comp = lambda v, j: v.t[v.ty.fields[j][0]]
     elif isinstance(probe.ty, TTuple): k = len(probe.t); comp = lambda v, j: v.t[j]
     else: raise Unsupported('zip(*seq of %r)' % probe.ty)
